@@ -306,7 +306,7 @@ def neutralise(v, fs):
 # ---------------------------------------------------------------------------------------------------- generator
 STRINGS = [b'5', b'-1', b'1e3', b'0x10', b'1.5', b' 5', b'5 ', b'-', b'.', b'nil', b'true', b'false', b'1+1', b'a..b', b']]', b'[[x]]', b'--c', b'return 1', b'{}', b'{1,2}', b'"q"', b"'q'",
            b'\\', b'\\n', b'a\nb', b'\t', b'\r\n', b'_event', b'_G', b'os.exit()', b'x y', b'\x01', b'\x7f', b'\x80', b'\xff\xfe', 'äö'.encode(), '€'.encode(), b'%d', b'&lt;', b'<a/>', b'&', b'end', b'a=b']
-KEYS = [b'a', b'b', b'key', b'k1', b'_x', b'end', b'nil', b'true', b'with space', b'da-sh', b'do.t', b'"q"', b"'", b'\\', b'x1y', b'A', 'ä'.encode(), b'\x01', b'[1]', b'1a', b'a1', b'return', b'#', b'$', b'', b'1-2', b'-', b'1.2.3', b'-x', b'3-', b'1 2']
+KEYS = [b'a', b'b', b'key', b'k1', b'_x', b'end', b'nil', b'true', b'with space', b'da-sh', b'do.t', b'"q"', b"'", b'\\', b'x1y', b'A', 'ä'.encode(), b'\x01', b'[1]', b'1a', b'a1', b'return', b'#', b'$', b'', b'1-2', b'-', b'1.2.3', b'-x', b'3-', b'1 2', b'1.5', b'2.0', b'10.25']
 
 
 def gen_string(rng, clean):
@@ -328,8 +328,8 @@ def gen_key(rng, clean=()):
     else:
         k = bytes(rng.choice(b'abcdefgXYZ_019 -.\'"\\') for _ in range(rng.randint(1, 8)))
     # "non-numeric": only what reads as a number in full is avoided ('1a', '1-2', '3-' are strings)
-    if parse_number(k.decode('latin-1').strip()) is not None:
-        k = b'k' + k
+    if parse_number(k.decode('latin-1').strip()) is not None and not re.match(rb'^\d+\.\d+$', k):
+        k = b'k' + k          # (a decimal fraction such as "1.5" is no array index either: it has to stay the string key it is)
     return k
 
 
